@@ -16,7 +16,7 @@ import vlib
 MOD, MC, GEN, JUDGE, TRACE = "ReplicationSearch", "MC_ReplicationSearch", "ReplicationSearchGen", \
     "ReplicationSearchJudge", "ReplicationSearchTrace"
 KINDS = ["minute", "hour", "day", "changesets"]
-CASE_FIELDS = ("kind", "skew", "style", "prefix", "unit", "pauses", "pauselen", "lay", "lists", "seam", "present", "first", "cur")
+CASE_FIELDS = ("kind", "skew", "style", "prefix", "unit", "pauses", "pauselen", "lay", "lists", "seam", "ds", "gz", "present", "first", "cur")
 
 # --------------------------------------------------------------------------
 class Cases:
@@ -62,7 +62,9 @@ def execute_dirs(ctx, dirs):
 
 
 def judge(ctx, recs):
-    crashed = [r for r in recs if r["got"]["outcome"] == "crash"]
+    # a panic inside the library call is the abstract outcome "crash" and goes to the Judge (it fails the result
+    # clause); a child process that died or timed out as a whole is not an observation of C19
+    crashed = [r for r in recs if r["got"]["outcome"] == "crash" and r["got"]["err"] == "child"]
     if crashed:   # no abstract outcome of C19: the child process running a history died or timed out
         raise vlib.Infra("C19: %d calls lost with their child process: %s" % (len(crashed), crashed[0]["got"]["detail"][-800:]))
     shards = max(1, min(vlib.NCPU // 2, len(recs) // 400))
@@ -231,7 +233,7 @@ def run(ctx):
                                      "trace": round(t4 - t3, 1)}
             ctx.extra["directories"] = len(dirs)
             ctx.extra["requests"] = sum(r["got"]["count"] for r in recs)
-            ctx.extra["outcomes"] = {o: sum(1 for r in recs if r["got"]["outcome"] == o) for o in ("ok", "error", "hang")}
+            ctx.extra["outcomes"] = {o: sum(1 for r in recs if r["got"]["outcome"] == o) for o in ("ok", "error", "hang", "crash")}
         finally:
             mc = fmc.result()
     ctx.extra["model_checks"] = mc
